@@ -85,7 +85,7 @@ CHECKS = {
             "DESIGN.md §3 C09"),
     "C10": ("exploration", "trace conformance against a 3-state reference model over exhaustively enumerated message sequences (raw websocket client vs the real handler), with the cleanup delay as a schedulable gate",
             "All sequences over 8 message kinds (config c1/c2, upload e1/e2, search, reconnect, foreign sid, unknown type) "
-            "up to length 4 (quick) / 6 (thorough), each on a fresh sid, plus seeded random sequences to length 12, are "
+            "up to length 4 (quick) / 5 (thorough; plus every length-6 sequence that starts with an accepted configuration), each on a fresh sid, plus seeded random sequences to length 12, are "
             "sent by a raw websocket client to the real connection handler served in-process. The observable trace "
             "(init-echo state of every connection, ok/refused, search result identifying the index) must equal the "
             "model's; each sequence is run with reconnects after the predecessor's cleanup and again with reconnects "
